@@ -646,3 +646,105 @@ def _mcg(repo):
     if "Enclose(each)" not in ev or "enclose:insert" not in ev:
         raise KeyError("compile_macro_expression / Context::enclose")
     return ev, "def c18MacroCodegen : List String := [" + ", ".join(lean_str(e) for e in ev) + "]"
+
+
+# ---------------------------------------------------------------------------- closure objects and closure fields
+# Every place in minijinja/src that creates, reads, fills, detaches, clears or shares a closure object
+# (`Closure` = BTreeMap in `State::closures`) or one of the closure fields (`Frame::closure`,
+# `Frame::closure_context`, `Macro::closure`).  Rows `(file, function, operation)`:
+#   map.<method>      a method called on one closure object: `closures[..].m(` / `|closure| closure.m(`
+#   vec.<method>      a method called on the vector of closure objects: `closures.m(`
+#   vec:=default      the vector is created (`closures: Default::default()`)
+#   Closure::new      a closure object is created
+#   frame.closure=<rhs> / frame.closure.take / frame.closure:read / frame.closure:=None (struct initialiser)
+#   frame.closure_context:=<rhs> (struct initialiser) / frame.closure_context:read
+#   macro.closure:=closure (struct initialiser of `Macro`) / macro.closure:read
+# `MJ.C18.closure_sites_as_modelled` proves the model's table (`MJ/Model/MetaEsc.lean: closureSites`, every row
+# assigned to an event of the closure heap machine) equal to these rows; a site that removes keys or objects
+# (`map.clear`, `map.remove`, `vec.truncate`, …) or a new assignment to a closure field has no row there.
+CLOSURE_FILES = ["minijinja/src/vm/context.rs", "minijinja/src/vm/mod.rs", "minijinja/src/vm/state.rs",
+                 "minijinja/src/vm/macro_object.rs"]
+
+
+def _enclosing_fn(fns, pos):
+    name = "<top>"
+    for p, f in fns:
+        if p < pos:
+            name = f
+        else:
+            break
+    return name
+
+
+def closure_sites(repo):
+    import os
+    rows = set()
+    files = [f for f in _rs_files(repo) if f.startswith("minijinja/src/")]
+    for must in CLOSURE_FILES:
+        if must not in files:
+            raise KeyError(must)
+    for rel in files:
+        src = _drop_test_modules(strip_comments(read(repo, rel)))
+        if "closure" not in src and "Closure" not in src:
+            continue
+        fns = [(m.start(), m.group(1)) for m in re.finditer(r"\bfn\s+(\w+)\s*[<(]", src)]
+
+        def add(pos, op):
+            rows.add((rel, _enclosing_fn(fns, pos), op))
+        # one closure object
+        for m in re.finditer(r"\bclosures\s*\[[^\]]*\]\s*\.\s*(\w+)\s*\(", src):
+            add(m.start(), "map." + m.group(1))
+        for m in re.finditer(r"\|\s*closure\s*\|\s*closure\s*\.\s*(\w+)\s*\(", src):
+            add(m.start(), "map." + m.group(1))
+        for m in re.finditer(r"Some\s*\(\s*closure\s*\)\s*=\s*closures\s*\.\s*get\s*\([^)]*\)\s*\{(?P<body>[^}]*)\}", src):
+            for k in re.finditer(r"\bclosure\s*\.\s*(\w+)\s*\(", m.group("body")):
+                add(m.start(), "map." + k.group(1))
+        # the vector of closure objects
+        for m in re.finditer(r"\bclosures\s*\.\s*(\w+)\s*\(", src):
+            add(m.start(), "vec." + m.group(1))
+        for m in re.finditer(r"\bclosures\s*:\s*(Default::default\s*\(\s*\)|Vec::new\s*\(\s*\)|vec!\s*\[\s*\])", src):
+            add(m.start(), "vec:=default")
+        for m in re.finditer(r"\bclosures\s*=[^=]", src):
+            add(m.start(), "vec=assigned")
+        for m in re.finditer(r"\bClosure::new\s*\(", src):
+            add(m.start(), "Closure::new")
+        # closure fields of frames
+        for m in re.finditer(r"\.\s*closure\s*=\s*([^;=][^;]*);", src):
+            rhs = re.sub(r"\s+", "", m.group(1))
+            add(m.start(), "frame.closure=" + rhs)
+        for m in re.finditer(r"\.\s*closure\s*\.\s*(take|replace|insert|get_or_insert\w*)\s*\(", src):
+            add(m.start(), "frame.closure." + m.group(1))
+        for m in re.finditer(r"\b(?:top|_?frame|x|unwrap\s*\(\s*\))\s*\.\s*closure\b(?!\s*=[^=])(?!_)(?!\s*\.\s*(?:take|replace)\b)", src):
+            add(m.start(), "frame.closure:read")
+        for m in re.finditer(r"\b_?frame\s*\.\s*closure_context\b", src):
+            add(m.start(), "frame.closure_context:read")
+        # struct initialisers
+        for m in re.finditer(r"\bclosure\s*:\s*(None|Some\s*\([^)]*\))\s*,", src):
+            add(m.start(), "frame.closure:=" + re.sub(r"\s+", "", m.group(1)))
+        for m in re.finditer(r"\bclosure_context\s*:\s*([^,\n]+),", src):
+            rhs = re.sub(r"\s+", "", m.group(1))
+            if rhs.startswith("Option<"):
+                continue  # field declaration
+            add(m.start(), "frame.closure_context:=" + rhs)
+        # macro values
+        for m in re.finditer(r"\bMacro\s*\{(?P<body>[^}]*)\}", src):
+            k = re.search(r"\bclosure\s*(?::\s*([^,\n]+))?,", m.group("body"))
+            if k and "Option<" not in (k.group(1) or ""):
+                add(m.start(), "macro.closure:=" + re.sub(r"\s+", "", k.group(1) or "closure"))
+        for m in re.finditer(r"\bself\s*\.\s*closure\b", src):
+            add(m.start(), "macro.closure:read")
+    return sorted(rows)
+
+
+@item("C18_CLOSURE_SITES")
+def _cs(repo):
+    rows = closure_sites(repo)
+    have = {(f, fn) for f, fn, _ in rows}
+    for must in (("minijinja/src/vm/context.rs", "next_loop_item"), ("minijinja/src/vm/context.rs", "store"),
+                 ("minijinja/src/vm/context.rs", "enclose"), ("minijinja/src/vm/mod.rs", "eval_macro"),
+                 ("minijinja/src/vm/mod.rs", "build_macro")):
+        if must not in have:
+            raise KeyError("closure site %s::%s" % must)
+    lean = "def c18ClosureSites : List (String × String × String) := [\n  " + ",\n  ".join(
+        f"({lean_str(a)}, {lean_str(b)}, {lean_str(c)})" for a, b, c in rows) + "]"
+    return [list(r) for r in rows], lean
